@@ -11,6 +11,7 @@ import (
 	"math/rand"
 	"os"
 	"sort"
+	"strings"
 	"sync"
 	"sync/atomic"
 	"time"
@@ -630,6 +631,87 @@ func recordConc(rec *recorder, rng *rand.Rand, trials int, repo string) int {
 			}
 		}
 	}
+	// Runs that are REFUSED are results too: a Run returns the same error (class and text) concurrently as alone. Two small
+	// models with free dimensions; some keys broadcast / multiply fine, the others fail inside an operator, each with its own shapes
+	for _, em := range []struct {
+		name string
+		m    mModel
+		cols []int
+	}{
+		{"refused_broadcasts", mModel{
+			Nodes:  []mNode{{Op: "Add", Attrs: []Attr{}, Ins: []string{"x", "w"}, Outs: []string{"y"}}, {Op: "Mul", Attrs: []Attr{}, Ins: []string{"y", "w"}, Outs: []string{"z"}}},
+			Inputs: []mInput{{Name: "x", Dt: "f32", Dims: []mDim{{Kind: "sym"}, {Kind: "sym"}}}}, Outputs: []string{"z"},
+			Inits: []mInit{{"w", itensorF([]int{4}, []int{1, -2, 3, 0})}}}, []int{4, 5, 1, 9, 7, 3}},
+		{"refused_products", mModel{
+			Nodes:  []mNode{{Op: "MatMul", Attrs: []Attr{}, Ins: []string{"x", "w"}, Outs: []string{"y"}}, {Op: "PRelu", Attrs: []Attr{}, Ins: []string{"y", "s"}, Outs: []string{"z"}}},
+			Inputs: []mInput{{Name: "x", Dt: "f32", Dims: []mDim{{Kind: "sym"}, {Kind: "sym"}}}}, Outputs: []string{"z"},
+			Inits: []mInit{{"w", itensorF([]int{3, 2}, []int{1, -2, 3, 0, 2, -1})}, {"s", itensorF([]int{2}, []int{2, -1})}}}, []int{3, 2, 5, 3, 4, 6}},
+	} {
+		b, err := buildModel(em.m)
+		if err != nil {
+			fmt.Fprintln(os.Stderr, "record conc:", em.name, err)
+			return 2
+		}
+		model, err := gonnx.NewModelFromBytes(b)
+		if err != nil {
+			fmt.Fprintln(os.Stderr, "record conc:", em.name, err)
+			return 2
+		}
+		mkFeed := func(k int) gonnx.Tensors {
+			rows, cols := 1+k%3, em.cols[k]
+			d := make([]float32, rows*cols)
+			for i := range d {
+				d[i] = float32((i*7+k)%11 - 5)
+			}
+			return gonnx.Tensors{"x": tensor.New(tensor.WithShape(rows, cols), tensor.WithBacking(d))}
+		}
+		outcome := func(k int) string {
+			var dg string
+			o := guard(func() Observation {
+				out, err := model.Run(mkFeed(k))
+				if err != nil {
+					dg = "error: " + err.Error()
+				} else {
+					dg = digestOf(out, em.m.Outputs)
+				}
+				return Observation{Kind: "value"}
+			})
+			if o.Kind != "value" {
+				return "panic: " + o.Short()
+			}
+			return dg
+		}
+		refused := 0
+		for k := range em.cols {
+			dg := outcome(k)
+			if strings.HasPrefix(dg, "error: ") {
+				refused++
+			}
+			emit(map[string]interface{}{"ev": "Baseline", "model": em.name, "g": 0, "seq": 0, "key": k + 1, "digest": dg})
+		}
+		if refused < 2 || refused == len(em.cols) {
+			fmt.Fprintln(os.Stderr, "record conc:", em.name, "is expected to accept some inputs and to refuse several, refused", refused)
+			return 2
+		}
+		runs := 4 + trials
+		if concMode == "hot" {
+			runs = 20 * trials
+		}
+		var rw sync.WaitGroup
+		for gi := 1; gi <= 8; gi++ {
+			seed := rng.Int63()
+			rw.Add(1)
+			go func(gi int, seed int64) {
+				defer rw.Done()
+				lr := rand.New(rand.NewSource(seed))
+				for seq := 1; seq <= runs; seq++ {
+					k := lr.Intn(len(em.cols))
+					emit(map[string]interface{}{"ev": "RunEnd", "model": em.name, "g": gi + 700, "seq": seq, "key": k + 1, "digest": outcome(k)})
+				}
+			}(gi, seed)
+		}
+		rw.Wait()
+	}
 	// random DAG programs over the operator catalogue (the same generator as the node-level trace recorder): every operator
 	// family is run from 8 goroutines at once, each Run with its own tensors, against the sequential result of the same input
 	nProg := 3
@@ -714,4 +796,13 @@ func recordConc(rec *recorder, rng *rand.Rand, trials int, repo string) int {
 		rw.Wait()
 	}
 	return 0
+}
+
+// itensorF builds a float32 tensor description from integers.
+func itensorF(shape []int, vals []int) AbsTensor {
+	t := AbsTensor{Dt: "f32", Shape: shape, Data: make([]Elem, len(vals))}
+	for i, v := range vals {
+		t.Data[i] = IntElem(int64(v))
+	}
+	return t
 }
